@@ -237,6 +237,8 @@ def r14_5(prog, rep, RULE='R14.5'):
     rd = one_body(prog, rep, RULE, 'mla', adt='layers::compress::CompressionLayerFailSafeReader', name='read', trait='std::io::Read')
     if rd is None:
         return
+    from ..inline import inlined_body
+    rd = inlined_body(prog, rd)      # integer conversions may go through a private helper
     dec = [b for b in rd.calls() if cnorm(b.term).endswith('BrotliDecompressStream')]
     key = RULE + '|%s|produced-bytes-not-dropped' % rd.nkey
     if len(dec) != 1 or dec[0].term.target is None:
